@@ -946,7 +946,11 @@ func runC16(c *hc.Ctx) error {
 		if kind == "ok" {
 			desc["reencoded"] = trunc(string(o.enc1), 3000)
 		}
-		buf.add(fmt.Sprintf("MkCase %s %s", docTerm, obs), desc)
+		if len(muts) == 0 {
+			buf.addFirst(fmt.Sprintf("MkCase %s %s", docTerm, obs), desc)
+		} else {
+			buf.add(fmt.Sprintf("MkCase %s %s", docTerm, obs), desc)
+		}
 		if len(muts) > 0 && len(c.Sum.Samples) < 6 && c.Rng.Intn(40) == 0 {
 			c.Sample(map[string]any{"base": name, "mutations": muts, "observed": kind})
 		}
@@ -980,7 +984,7 @@ func runC16(c *hc.Ctx) error {
 	}
 	sysEvery := 1
 	if c.Quick() {
-		sysEvery = 14
+		sysEvery = 10
 	}
 	cnt := 0
 	for _, b := range sinks {
@@ -1009,7 +1013,7 @@ func runC16(c *hc.Ctx) error {
 		}
 	}
 	// 4. random structural mutations, depth 1..3
-	n := c.N(900, 24000)
+	n := c.N(1400, 16000)
 	if c.Search {
 		n *= 5
 	}
